@@ -8,7 +8,7 @@ payload of the preceding directive):
   @unit <id> <title>
   @prelude <name> ...            include contracts/prelude/<name>.rs (trusted, shared)
   @raw                           payload emitted verbatim (spec fns, lemmas, shims)
-  @item <file> <kind> <name> [noattr] [derive=<A,B>] [external_body]
+  @item <file> <kind> <name> [noattr] [derive=<A,B>] [external_body] [pubfields]
                                  extract a struct/enum/const/static/type verbatim
   @impl <file> "<header substring>" [header="<replacement header>"]
   @trait <file> <Name>
@@ -494,6 +494,11 @@ def generate(vc_path, out_dir, canary=False, lenient=False):
                     keep.append(a)
                 else:
                     dropped.append("%s %s: %s" % (kind, name, a))
+            if opts.get("pubfields") and kind == "struct":
+                # visibility only: private fields become pub so that contracts of pub functions may mention them
+                body, k4 = re.subn(r"(?m)^(\s+)([a-z_][A-Za-z0-9_]*\s*:)", r"\1pub \2", body)
+                if k4:
+                    rewrites_log.append({"id": "ITEMVIS", "fn": "%s %s" % (kind, name), "why": "visibility only: %d private fields made pub (contracts of pub functions mention them)" % k4})
             for (rx, repl, why) in item_subs.get((kind, name), []):
                 body, k3 = re.subn(rx, repl, body, flags=re.S)
                 if k3 == 0:
@@ -520,7 +525,7 @@ def generate(vc_path, out_dir, canary=False, lenient=False):
                 opts = parse_opts(rest)
                 f = sf(rel)
                 hits = f.impls(hdr)
-                nth = opts.get("nth", 0)
+                nth = int(opts.get("nth", 0))
                 if len(hits) == 0 or nth >= len(hits) or (len(hits) > 1 and "nth" not in opts):
                     raise LostAnchor("%s: impl %r in %s: %d matches" % (unit_id, hdr, rel, len(hits)))
                 block = hits[nth]
@@ -596,6 +601,10 @@ def generate(vc_path, out_dir, canary=False, lenient=False):
                     if m2 and m2.group(1).startswith("pub fn "):
                         fs.subs.append((m2.group(1), m2.group(2).replace("\\/", "/"), parse_opts(m2.group(3)).get("why", "")))
                 k2 += 1
+            m5 = re.search(r"\bsub=/((?:[^/\\]|\\.)*)/((?:[^/\\]|\\.)*)/", d.arg)
+            if m5:
+                # e.g. the `Result` alias of the defining file differs from the one of this unit
+                fs.subs.append((m5.group(1), m5.group(2), "type alias of the defining file spelled out (this unit uses another `Result` alias)"))
             if d.text().strip():
                 # extra ASSUMED clauses added on top of the imported (proved) contract
                 fs.sig = (fs.sig or "") + "\n" + d.text()
